@@ -7,6 +7,7 @@ import (
 	"bytes"
 	"crypto/x509"
 	"fmt"
+	"io"
 
 	"github.com/WICG/webpackage/go/signedexchange/certurl"
 	"github.com/WICG/webpackage/go/zz_verif/gen"
@@ -130,20 +131,7 @@ func checkChain(r *mon.Run, es []elem, class string, sampleEvery int) {
 		det["read_error"] = rerr.Error()
 		r.Violation(key+":rejected", fmt.Sprintf("a valid chain was rejected on read (%v): %s", rerr, d), det)
 	default:
-		bad := ""
-		if len(got) != len(es) {
-			bad = fmt.Sprintf("%d certificates read, %d written", len(got), len(es))
-		}
-		for i := 0; bad == "" && i < len(es); i++ {
-			switch {
-			case got[i].Cert == nil || !bytes.Equal(got[i].Cert.Raw, es[i].cert.Raw):
-				bad = fmt.Sprintf("certificate %d DER differs", i)
-			case (got[i].OCSPResponse == nil) != (es[i].ocsp == nil) || !bytes.Equal(got[i].OCSPResponse, es[i].ocsp):
-				bad = fmt.Sprintf("OCSP of certificate %d differs (len %d vs %d, nil %v vs %v)", i, len(got[i].OCSPResponse), len(es[i].ocsp), got[i].OCSPResponse == nil, es[i].ocsp == nil)
-			case (got[i].SCTList == nil) != (es[i].sct == nil) || !bytes.Equal(got[i].SCTList, es[i].sct):
-				bad = fmt.Sprintf("SCT list of certificate %d differs (len %d vs %d, nil %v vs %v)", i, len(got[i].SCTList), len(es[i].sct), got[i].SCTList == nil, es[i].sct == nil)
-			}
-		}
+		bad := chainDiff(got, es)
 		if bad != "" {
 			ro = "ROUNDTRIP-MISMATCH"
 			det["problem"] = bad
@@ -159,6 +147,71 @@ func checkChain(r *mon.Run, es []elem, class string, sampleEvery int) {
 	if sampleEvery > 0 && nCase%sampleEvery == 0 {
 		r.Sample(class, map[string]any{"chain": d, "write": outcome, "read": ro, "bytes": mon.Short(buf.Bytes())})
 	}
+}
+
+func chainDiff(got certurl.CertChain, es []elem) string {
+	bad := ""
+	if len(got) != len(es) {
+		bad = fmt.Sprintf("%d certificates read, %d written", len(got), len(es))
+	}
+	for i := 0; bad == "" && i < len(es); i++ {
+		switch {
+		case got[i].Cert == nil || !bytes.Equal(got[i].Cert.Raw, es[i].cert.Raw):
+			bad = fmt.Sprintf("certificate %d DER differs", i)
+		case (got[i].OCSPResponse == nil) != (es[i].ocsp == nil) || !bytes.Equal(got[i].OCSPResponse, es[i].ocsp):
+			bad = fmt.Sprintf("OCSP of certificate %d differs (len %d vs %d, nil %v vs %v)", i, len(got[i].OCSPResponse), len(es[i].ocsp), got[i].OCSPResponse == nil, es[i].ocsp == nil)
+		case (got[i].SCTList == nil) != (es[i].sct == nil) || !bytes.Equal(got[i].SCTList, es[i].sct):
+			bad = fmt.Sprintf("SCT list of certificate %d differs (len %d vs %d, nil %v vs %v)", i, len(got[i].SCTList), len(es[i].sct), got[i].SCTList == nil, es[i].sct == nil)
+		}
+	}
+	return bad
+}
+
+// plain hides every optional interface of the reader it wraps
+type plain struct{ r io.Reader }
+
+func (p plain) Read(b []byte) (int, error) { return p.r.Read(b) }
+
+// checkSequence writes several valid chains one after the other into one stream and reads them back in order.
+func checkSequence(r *mon.Run, chains [][]elem, kind string) {
+	var buf bytes.Buffer
+	for i, es := range chains {
+		if err := toChain(es).Write(&buf); err != nil {
+			r.Violation(fmt.Sprintf("cc:seq:%s:write%d", kind, i), fmt.Sprintf("chain %d of a sequence written to one buffer was refused: %v", i, err), nil)
+			r.Eval("seq:WRITE-REFUSED")
+			return
+		}
+	}
+	var src io.Reader
+	switch kind {
+	case "bytes.Buffer":
+		src = &buf
+	case "bytes.Reader":
+		src = bytes.NewReader(buf.Bytes())
+	default:
+		src = plain{bytes.NewReader(buf.Bytes())}
+	}
+	for i, es := range chains {
+		var got certurl.CertChain
+		var err error
+		p, pv := r.Call(fmt.Sprintf("seq/%s/read%d", kind, i), buf.Bytes(), func() { got, err = certurl.ReadCertChain(src) })
+		bad := ""
+		switch {
+		case p:
+			bad = fmt.Sprintf("panic: %v", pv)
+		case err != nil:
+			bad = "error: " + err.Error()
+		default:
+			bad = chainDiff(got, es)
+		}
+		if bad != "" {
+			r.Eval("seq:MISMATCH")
+			r.Violation(fmt.Sprintf("cc:seq:%s:read%d", kind, i), fmt.Sprintf("%d chains written one after the other into one stream and read back in order through a %s: chain %d (%s) is not reproduced: %s", len(chains), kind, i, describe(es), bad), nil)
+			return
+		}
+		r.Eval("seq:ok")
+	}
+	r.Distinct(fmt.Sprintf("sequence|%s|%d", kind, len(chains)))
 }
 
 // ---- SCT lists (RFC 6962 section 3.3)
@@ -331,6 +384,27 @@ func run(r *mon.Run) {
 		checkChain(r, []elem{{cert: pool[0], ocsp: blob(g, 10)}, {cert: pool[0]}}, "same-cert-twice", 1)
 		checkChain(r, []elem{{cert: pool[1], ocsp: blob(g, 10), sct: blob(g, 5)}, {cert: pool[2]}, {cert: pool[1], sct: blob(g, 5)}}, "same-cert-twice", 1)
 		checkChain(r, []elem{{cert: pool[3], ocsp: blob(g, 0)}, {cert: pool[3]}, {cert: pool[3]}}, "same-cert-twice", 1)
+	}
+	// several chains in one stream
+	for si := 0; si < 9; si++ {
+		if !r.Mine(si) {
+			continue
+		}
+		g := r.Rand("sequence", si)
+		var chains [][]elem
+		for c := 0; c < 2+si%3; c++ {
+			n := 1 + g.Intn(3)
+			es := make([]elem, n)
+			for i := range es {
+				es[i].cert = pool[g.Intn(len(pool))]
+			}
+			es[0].ocsp = blob(g, mon.Pick(g, []int{0, 1, 24, 300, 5000}))
+			if g.Chance(1, 2) {
+				es[0].sct = blob(g, mon.Pick(g, []int{0, 1, 24, 300}))
+			}
+			chains = append(chains, es)
+		}
+		checkSequence(r, chains, []string{"bytes.Buffer", "bytes.Reader", "plain io.Reader"}[si%3])
 	}
 	// empty chain
 	if r.Shard == 0 {
